@@ -313,12 +313,14 @@ open NeoFS.NotaryBootstrap
 /-! ## bridge lemmas: the regenerated shape of `deploy/notary.go` is the one the model mirrors -/
 
 /-- leader loop `for i := 1; i < len(committee); i++`, domain `i`, key `i`, signer `j` writes domain
-`j`, signatures appended in index order -/
+`j`, signatures appended in index order, an outdated own signature record is REPLACED (setRecord id 0) -/
 theorem current_maps : current =
-    { lo := fun _ => 1, hi := fun n => n, domOff := 0, keyOff := 0, sdOff := 0, sorted := true } := rfl
+    { lo := fun _ => 1, hi := fun n => n, domOff := 0, keyOff := 0, sdOff := 0, sorted := true, replaceOutdated := true } := rfl
 
-/-- member 0 leads, `M − 1` remote signatures are awaited, the loop breaks when it has them, the map
-key is the key index, and the monitor asked before (re)sending is `registerDomainTxMonitor` (sic) -/
+/-- member 0 leads; `M − 1` remote signatures are awaited, `M` being the committee's majority count (computed in
+the tick or returned by a same-package helper); a signature is stored under the member's committee index only
+after it verified (the store index is the key index; map or slice); the loop stops when enough are collected;
+the monitor asked before (re)sending is `registerDomainTxMonitor` (sic) -/
 theorem code_shape :
     Generated.DeployFacts.leaderIndex = 0 ∧ Generated.DeployFacts.needRemoteIsMajorityMinusOne = true ∧
     Generated.DeployFacts.breakWhenEnough = true ∧
@@ -359,10 +361,11 @@ most `n − 1` domains): the bootstrap completes for the live set `S ∋ 0` IFF 
 `S` are collectible, i.e. the leader reads the domain they write and verifies it with their key.
 "Never" is meant: after no number of rounds. -/
 theorem bootstrap_completes_iff (mp : Maps) (n maxInc : Nat) (S : Nat → Bool) (nonce h : Nat) (hn : 2 ≤ n)
-    (h0 : S 0 = true) (hr : KeysInRange mp n) (hs : (loopIndices mp n).length ≤ n - 1) (hinc : 4 ≤ maxInc) :
+    (h0 : S 0 = true) (hr : KeysInRange mp n) (hs : (loopIndices mp n).length ≤ n - 1) (hinc : 4 ≤ maxInc)
+    (hrep : mp.replaceOutdated = true) :
     (∃ k, ((rounds mp n maxInc S nonce k (State.init h)).chain.roleAt).isSome = true) ↔
       majority n - 1 ≤ collectible mp n S :=
-  completes_iff mp n maxInc S nonce h hn h0 hr hs hinc
+  completes_iff mp n maxInc S nonce h hn h0 hr hs hinc hrep
 
 /-- With too few collectible signers the role is never designated — under ANY schedule in which only
 members of `S` ever tick (any order, any restarts, any map order), for any index maps. -/
@@ -416,6 +419,40 @@ theorem bootstrap_completes_from_any_good_state (n maxInc : Nat) (S : Nat → Bo
 example : (rounds current 4 120 (fun _ => true) 7 5
     (restart (fun j => j == 0 || j == 3) (rounds current 4 120 (fun _ => true) 7 3 (State.init 10)))).chain.roleAt = some 15 := by
   decide
+
+/-! ## the leader down across the validity window of the shared data: members must REPLACE their signatures -/
+
+/-- the leader publishes the shared data (two fair rounds), is down for eight rounds — the other member signs, the data
+expires (`maxInc = 6`: valid for six blocks) —, comes back with an empty process state and regenerates the data; then
+`k` fair rounds -/
+def leaderDownAcrossExpiry (k : Nat) : List Env :=
+  List.replicate 2 (fairEnv (fun _ => true) 7) ++
+  List.replicate 8 ⟨fun j => j != 0, fun _ => false, 7, id, false⟩ ++
+  [⟨fun _ => true, fun j => j == 0, 8, id, false⟩] ++ List.replicate k (fairEnv (fun _ => true) 9)
+
+/-- Regenerated from `deploy/notary.go`: the member sets `recordExists` for every record it finds under its own
+domain, so a signature of outdated shared data is replaced with `setRecord(id 0)`. -/
+theorem outdated_signature_is_replaced : current.replaceOutdated = true := rfl
+
+/-- For the code under test the history "leader down across the expiry while the required member has signed"
+completes two rounds after the leader's return (generic form: `bootstrap_completes_from_any_good_state`, whose
+invariant allows signature records of ANY earlier shared data). -/
+theorem leader_down_across_expiry_completes :
+    (run current 2 6 (State.init 10) (leaderDownAcrossExpiry 2)).chain.roleAt = some 23 := by decide
+
+/-- If a member re-signed outdated data with `addRecord` instead (seeded change C13-6), NNS would keep its FIRST
+signature as record #0 for ever, under every schedule … -/
+theorem appending_keeps_the_first_signature (mp : Maps) (n maxInc : Nat) (S : Nat → Bool) (env : Env) (s : State) (k : Nat)
+    (r : SigRec) (hrep : mp.replaceOutdated = false) (hc : ChainInv mp n S s.chain) (hk : s.chain.sigRec k = some r) :
+    (round mp n maxInc env s).chain.sigRec k = some r :=
+  append_keeps_first_record mp n maxInc S env s k r hrep hc hk
+
+/-- … and the same history never gets the role designated: the leader reads the member's signature of the
+expired data and skips it ("checksum … mismatches"), round after round. -/
+theorem appending_stalls_after_regeneration :
+    (run { current with replaceOutdated := false } 2 6 (State.init 10) (leaderDownAcrossExpiry 12)).chain.roleAt = none ∧
+    (run { current with replaceOutdated := false } 2 6 (State.init 10) (leaderDownAcrossExpiry 12)).chain.sigRec 1 =
+      some (signRec 1 ⟨17, 7⟩) := by decide
 
 /-! ## the leader assembles a valid designation transaction from any such majority of signatures -/
 
